@@ -14,6 +14,7 @@ import (
 
 	"github.com/codelaboratoryltd/bng/pkg/dhcp"
 	bngebpf "github.com/codelaboratoryltd/bng/pkg/ebpf"
+	"github.com/codelaboratoryltd/bng/pkg/nat"
 
 	"verif/harness/internal/cplane"
 )
@@ -137,4 +138,99 @@ func TestSentinelsThroughServer(t *testing.T) {
 		})
 	}
 	run.Floor("server_written_values_compared", 20)
+}
+
+// TestALGKeysEndToEnd: ALG triggers written by nat.Manager.ConfigureALG must be found by nat44_egress for a
+// subscriber's packet to that port and protocol (TCP and UDP derive the key in separate branches of the program).
+func TestALGKeysEndToEnd(t *testing.T) {
+	kn, err := cplane.LoadKernel("nat44")
+	if err != nil {
+		return
+	}
+	defer kn.Close()
+	nn, err := cplane.Start("nat44", "")
+	if err != nil {
+		t.Fatal(err)
+	}
+	defer nn.Close()
+	mgr, err := nat.NewManager(nat.ManagerConfig{Interface: "lo", PortsPerSubscriber: 1024, PortRangeStart: 1024, PortRangeEnd: 65535}, zap.NewNop())
+	if err != nil {
+		t.Fatal(err)
+	}
+	mgr.VerifSetMaps(kn.Coll.Maps)
+	pub, sub, far := net.IPv4(203, 0, 113, 9).To4(), net.IPv4(10, 20, 30, 40).To4(), net.IPv4(198, 51, 100, 7).To4()
+	mgr.AddPublicIP(pub)
+	mgr.AllocateNAT(sub)
+	cfg := nat.NATConfig{Flags: nat.NATFlagALGFTP | nat.NATFlagALGSIP, PortRangeStart: 1024, PortRangeEnd: 65535, DefaultPortsPerSub: 1024}
+	var zero uint32
+	if err := kn.Coll.Maps["nat_config_map"].Put(&zero, &cfg); err != nil {
+		t.Fatal(err)
+	}
+	type trig struct {
+		port  uint16
+		proto uint8
+	}
+	trigs := []trig{{21, 6}, {5060, 6}, {5060, 17}, {2000, 17}, {554, 6}, {0x1234, 17}, {0x3412, 6}}
+	for _, tr := range trigs {
+		if err := mgr.ConfigureALG(tr.port, tr.proto, 1, true); err != nil {
+			run.Violation("nat.Manager.ConfigureALG", "put-succeeds", "put-failed", err.Error(), nil)
+			return
+		}
+	}
+	nn.Reset()
+	for name, m := range kn.Coll.Maps {
+		mi, ok := nn.Map(name)
+		if !ok || mi.KeySize == 0 || (m.Type() != ebpf.Hash && m.Type() != ebpf.Array && m.Type() != ebpf.LRUHash) {
+			continue
+		}
+		kb := make([]byte, m.KeySize())
+		vb := make([]byte, m.ValueSize())
+		it := m.Iterate()
+		for it.Next(&kb, &vb) {
+			nn.Write(name, kb, vb, 0)
+		}
+	}
+	// the NAT manager writes IPv4 keys byte-reversed (known finding): install the subscriber entry under the
+	// wire-order key as well so that the program reaches the ALG branch
+	if ents, _ := nn.List("subscriber_nat"); len(ents) > 0 {
+		v := append([]byte(nil), ents[0][1]...)
+		nn.Write("subscriber_nat", []byte(sub), v, 0)
+	}
+	for _, tr := range trigs {
+		var l4 []byte
+		if tr.proto == 17 {
+			l4 = cplane.UDP(40000, tr.port, []byte("payload"))
+		} else {
+			l4 = make([]byte, 20)
+			l4[0], l4[1] = 0x9c, 0x40
+			l4[2], l4[3] = byte(tr.port>>8), byte(tr.port)
+			l4[12], l4[13] = 0x50, 0x02
+		}
+		frame := cplane.Eth(net.HardwareAddr{2, 0, 0, 0, 0, 0xfe}, net.HardwareAddr{2, 0xaa, 0xbb, 0xcc, 0xdd, 1}, 0x0800, nil, cplane.IPv4(sub, far, tr.proto, 5, l4))
+		res, err := nn.Run("nat44_egress", frame, cplane.RunOpt{})
+		if err != nil {
+			run.Violation("bpf/nat44.c", "memory-safety", "sanitizer-or-guard-fault", err.Error(), fmt.Sprintf("%x", frame))
+			return
+		}
+		run.Eval()
+		looked, found := false, false
+		var key []byte
+		for _, a := range res.Log {
+			if a.Map == "alg_ports" && a.Op == 'l' {
+				looked, key = true, a.Key
+				found = found || a.Hit
+			}
+		}
+		if !looked {
+			run.Count("alg_key_not_looked_up", 1)
+			continue
+		}
+		run.Count("alg_keys_judged", 1)
+		run.Nontrivial(fmt.Sprintf("algkey|%d|%d", tr.port, tr.proto))
+		if !found {
+			pn := map[uint8]string{6: "tcp", 17: "udp"}[tr.proto]
+			run.Violation("nat.Manager.ConfigureALG", "written-entry-is-found-by-the-program", "alg-trigger-not-found/"+pn, fmt.Sprintf("ConfigureALG(%d, %s) wrote the trigger; nat44_egress, on the subscriber's %s packet to port %d, looks up %x and finds nothing", tr.port, pn, pn, tr.port, key), fmt.Sprintf("%x", frame))
+		}
+	}
+	run.Floor("alg_keys_judged", 5)
 }
